@@ -88,3 +88,389 @@ def write_naming_block(wd: Path, k: int, style, block):
     p = wd / f"naming_{k}.v"
     p.write_text("".join(out))
     return p, inputs, impl
+
+
+# ---------------------------------------------------------------------------------------------
+# part 2: align_variable_names_with_convention / _get_uses_of  (RenameModel.v)
+
+import ast
+import io
+import tokenize
+
+DEF_BASE = 10000
+RENAME_HDR = ("From Coq Require Import List NArith ZArith Bool.\nImport ListNotations.\n"
+              "Require Import Pyrefact.Base Pyrefact.NamingModel Pyrefact.RenameModel Pyrefact.RenameRun.\n"
+              "Open Scope N_scope.\n")
+DEFS = (ast.FunctionDef, ast.AsyncFunctionDef, ast.ClassDef)
+
+
+def _name_token_positions(source: str):
+    """{(row, col of the def/class keyword token or of 'async')} -> absolute (start, end) offsets of the
+    name token that follows `def` / `class`.  Independent of fixes._get_func_name_start_end."""
+    line_starts = [0]
+    for line in source.splitlines(keepends=True):
+        line_starts.append(line_starts[-1] + len(line))
+    toks = list(tokenize.generate_tokens(io.StringIO(source).readline))
+    res = {}
+    for i, t in enumerate(toks):
+        if t.type == tokenize.NAME and t.string in ("def", "class") and i + 1 < len(toks):
+            n = toks[i + 1]
+            if n.type == tokenize.NAME:
+                first = toks[i - 1] if i and toks[i - 1].type == tokenize.NAME and toks[i - 1].string == "async" else t
+                res[(first.start[0], first.start[1])] = (line_starts[n.start[0] - 1] + n.start[1],
+                                                          line_starts[n.end[0] - 1] + n.end[1])
+    return res
+
+
+def abstract_module(root: ast.Module, source: str, typevar_nodes=()):
+    """AST -> the module abstraction of RenameModel.v (independent re-implementation of the data the
+    rule looks at).  Returns (dict for the model, node -> id map)."""
+    tokpos = _name_token_positions(source)
+    occs, defs, args, others, imported = [], [], [], [], []
+    ids = {}
+    scope_ids = {}
+
+    def targets_of(body):
+        out = []
+
+        def unpack(t):
+            if isinstance(t, ast.Name):
+                out.append(t)
+            elif isinstance(t, ast.Tuple):
+                for e in t.elts:
+                    unpack(e)
+        for st in body:
+            if isinstance(st, (ast.AnnAssign, ast.AugAssign)):
+                unpack(st.target)
+            if isinstance(st, ast.Assign):
+                for t in st.targets:
+                    unpack(t)
+        return out
+
+    target_nodes = set()
+
+    def visit(node, chain, aug, parent_body):
+        if isinstance(node, DEFS):
+            sid = len(scope_ids) + 1
+            scope_ids[node] = sid
+            nid = DEF_BASE + len(defs)
+            ids[node] = nid
+            key = (node.lineno, node.col_offset)
+            st, en = tokpos.get(key, (-1, -1))
+            is_func = not isinstance(node, ast.ClassDef)
+            params = [a.arg for a in ast.walk(node.args) if isinstance(a, ast.arg)] if is_func else []
+            defs.append(dict(id=nid, scope=sid, kind="KFunc" if is_func else "KClass", name=node.name,
+                             start=(node.lineno, st), end=(node.lineno, en), scopes=list(chain), params=params,
+                             bases=bool(getattr(node, "bases", [])),
+                             direct=any(node is s for s in parent_body)))
+            for t in targets_of(node.body):
+                target_nodes.add(id(t))
+            for child in ast.iter_child_nodes(node):
+                visit(child, chain + [sid], aug, node.body)
+            return
+        if isinstance(node, ast.Name):
+            nid = len(occs)
+            ids[node] = nid
+            occs.append(dict(id=nid, name=node.id, ctx=type(node.ctx).__name__, aug=aug,
+                             start=(node.lineno, node.col_offset), end=(node.end_lineno, node.end_col_offset),
+                             scopes=list(chain), node=node))
+        elif isinstance(node, ast.arg):
+            args.append(node.arg)
+        elif isinstance(node, ast.Attribute):
+            others.append(node.attr)
+        elif isinstance(node, ast.keyword):
+            if node.arg is not None:
+                others.append(node.arg)
+        elif isinstance(node, (ast.Global, ast.Nonlocal)):
+            others.extend(node.names)
+        elif isinstance(node, ast.alias):
+            others.append((node.asname or node.name).split(".")[0])
+        elif isinstance(node, ast.MatchMapping):
+            if node.rest is not None:
+                others.append(node.rest)
+        elif isinstance(node, (ast.ExceptHandler, ast.MatchAs, ast.MatchStar, ast.TypeVar, ast.ParamSpec,
+                               ast.TypeVarTuple)):
+            if node.name is not None:
+                others.append(node.name)
+        if isinstance(node, (ast.Import, ast.ImportFrom)):
+            if not (isinstance(node, ast.ImportFrom) and node.module == "__future__"):
+                imported.extend(a.asname or a.name for a in node.names)
+        for child in ast.iter_child_nodes(node):
+            visit(child, chain, aug or isinstance(node, ast.AugAssign), parent_body)
+
+    for t in targets_of(root.body):
+        target_nodes.add(id(t))
+    for child in root.body:
+        visit(child, [], False, root.body)
+    # def/class node ids follow the Name ids (small numbers: the model uses unary nat)
+    shift = len(occs) - DEF_BASE
+    for d in defs:
+        d["id"] += shift
+    for node in list(ids):
+        if isinstance(node, DEFS):
+            ids[node] += shift
+    tv = {id(n) for n in typevar_nodes}
+    for o in occs:
+        o["target"] = id(o["node"]) in target_nodes
+        o["typevar"] = id(o["node"]) in tv
+        del o["node"]
+    return dict(occs=occs, defs=defs, args=args, others=others, imported=imported), ids
+
+
+def gpos(p):
+    return f"({gz(p[0])}, {gz(p[1])})%Z"
+
+
+def gident(s: str) -> str:
+    return common.gtext(s)
+
+
+def modl_coq(m) -> str:
+    occs = glist(m["occs"], lambda o: (
+        f"Occ {o['id']} {gident(o['name'])} {o['ctx']} {common.gbool(o['aug'])} {gpos(o['start'])} {gpos(o['end'])} "
+        f"{glist(o['scopes'])}%nat {common.gbool(o['target'])} {common.gbool(o['typevar'])}"))
+    defs = glist(m["defs"], lambda d: (
+        f"Defn {d['id']} {d['scope']} {d['kind']} {gident(d['name'])} {gpos(d['start'])} {gpos(d['end'])} "
+        f"{glist(d['scopes'])}%nat {glist(d['params'], gident)} {common.gbool(d['bases'])} {common.gbool(d['direct'])}"))
+    return (f"(Modl {occs} {defs} {glist(m['args'], gident)} {glist(m['others'], gident)} "
+            f"{glist(m['imported'], gident)})")
+
+
+def impl_align(mods, source: str, preserve=frozenset()):
+    """One pass of the real rule: {(node id, new name)}, the abstraction, and whether the transactions
+    are exactly the groups by new name."""
+    core, fixes, parsing = mods["core"], mods["fixes"], mods["parsing"]
+    with common.quiet():
+        root = core.parse(source)
+        tv = []
+        for node in parsing.iter_typedefs(root):
+            if len(node.targets) == 1 and isinstance(node.targets[0], ast.Name):
+                tv.append(node.targets[0])
+        m, ids = abstract_module(root, source, tv)
+        res, trans = [], {}
+        for node, repl, tr in fixes.align_variable_names_with_convention._fix_func(source, preserve=preserve):
+            new = repl.id if isinstance(repl, ast.Name) else repl.name
+            res.append((ids[node], new))
+            trans.setdefault(tr, set()).add(new)
+    groups_ok = all(len(v) == 1 for v in trans.values()) and \
+        len({next(iter(v)) for v in trans.values()}) == len(trans)
+    return m, sorted(res), groups_ok
+
+
+def align_case_coq(m, preserve, want) -> str:
+    w = glist(want, lambda e: f"({e[0]}%nat, {gident(e[1])})")
+    return f"({glist(sorted(preserve), gident)}, {modl_coq(m)}, {w})"
+
+
+# ---------------------------------------------------------------------------------------------
+# generated programs with adversarial identifiers
+
+BASES = [("my", "var"), ("some", "value"), ("http", "server"), ("x",), ("a", "b"), ("list",), ("type",),
+         ("print",), ("class",), ("id", "of"), ("var", "1"), ("t", "2"), ("is",), ("for", "each")]
+FIXED_IDS = ["_", "__x__", "_1x", "x1", "X_1", "a1B2", "var_1", "var_2", "i", "a", "pyrefact_overused_constant_0",
+             "PYREFACT_OVERUSED_CONSTANT_1", "T", "ABc", "ABCd", "AB", "self", "cls", "Foo", "foo_", "__foo", "_Bar",
+             "setUp", "e", "args", "kwargs"]
+
+
+def variants(words):
+    """camelCase / snake_case / UPPER / Pascal / mixed / private / trailing-underscore variants of one name"""
+    w = [x for x in words]
+    snake = "_".join(w)
+    camel = w[0] + "".join(x.capitalize() for x in w[1:])
+    pascal = "".join(x.capitalize() for x in w)
+    mixed = w[0] + "".join("_" + x.capitalize() for x in w[1:])
+    out = [snake, snake.upper(), camel, pascal, mixed, "_" + camel, "_" + snake, camel + "_", "__" + camel,
+           snake + "__", pascal + "2"]
+    return [v for v in dict.fromkeys(out) if v.isidentifier() and not __import__("keyword").iskeyword(v)]
+
+
+class Gen:
+    """Random module with every binding form; text is built directly (always re-parsed before use)."""
+
+    def __init__(self, rnd: random.Random, sparse: bool):
+        self.r = rnd
+        self.sparse = sparse
+        pool = []
+        for b in rnd.sample(BASES, rnd.randint(2, 3)):
+            pool += rnd.sample(variants(b), min(len(variants(b)), rnd.randint(2, 4)))
+        pool += rnd.sample(FIXED_IDS, rnd.randint(1, 4))
+        self.pool = list(dict.fromkeys(pool))
+        self.fresh = 0
+        self.recent = []
+        self.hist = Counter()
+
+    def name(self):
+        """dense: always from the small pool.  sparse: mostly a recently used name (so that bindings
+        have references) or a new variant of a new base, sometimes from the adversarial pool."""
+        r = self.r
+        if not self.sparse:
+            return r.choice(self.pool)
+        k = r.random()
+        if k < 0.55 and self.recent:
+            return r.choice(self.recent[-6:])
+        if k < 0.85:
+            self.fresh += 1
+            base = r.choice(BASES)
+            n = r.choice(variants(base + (f"v{self.fresh}",)))
+            self.recent.append(n)
+            return n
+        n = r.choice(self.pool)
+        self.recent.append(n)
+        return n
+
+    def expr(self, depth=0):
+        r = self.r
+        k = r.random()
+        if k < 0.40 or depth > 2:
+            return self.name()
+        if k < 0.50:
+            return str(r.randint(0, 9))
+        if k < 0.58:
+            return f"{self.expr(depth + 1)} + {self.expr(depth + 1)}"
+        if k < 0.66:
+            self.hist["call_kw"] += 1
+            return f"{self.name()}({self.expr(depth + 1)}, {self.name()}={self.expr(depth + 1)})"
+        if k < 0.73:
+            self.hist["attribute"] += 1
+            return f"{self.name()}.{self.name()}"
+        if k < 0.79:
+            self.hist["lambda"] += 1
+            return f"(lambda {self.name()}: {self.expr(depth + 1)})"
+        if k < 0.86:
+            self.hist["comprehension"] += 1
+            return f"[{self.expr(depth + 1)} for {self.name()} in {self.expr(depth + 1)} if {self.name()}]"
+        if k < 0.90:
+            self.hist["walrus"] += 1
+            return f"({self.name()} := {self.expr(depth + 1)})"
+        if k < 0.94:
+            self.hist["fstring"] += 1
+            return 'f"{' + self.name() + '}"'
+        return f"{self.name()}[{self.expr(depth + 1)}]"
+
+    def target(self):
+        r = self.r
+        k = r.random()
+        if k < 0.6:
+            return self.name()
+        if k < 0.75:
+            self.hist["tuple_target"] += 1
+            return f"{self.name()}, {self.name()}"
+        if k < 0.82:
+            self.hist["star_target"] += 1
+            return f"{self.name()}, *{self.name()}"
+        if k < 0.88:
+            return f"[{self.name()}, {self.name()}]"
+        if k < 0.94:
+            return f"{self.name()}.{self.name()}"
+        return f"{self.name()}[0]"
+
+    def block(self, ind, depth, kind):
+        n = self.r.randint(1, 3 if depth else 5)
+        out = []
+        for _ in range(n):
+            out += self.stmt(ind, depth, kind)
+        return out
+
+    def stmt(self, ind, depth, kind):
+        r = self.r
+        pad = "    " * ind
+        k = r.random()
+        deep = depth >= 3
+        if k < 0.22:
+            self.hist["assign"] += 1
+            if r.random() < 0.15:
+                return [f"{pad}{self.target()} = {self.target()} = {self.expr()}"]
+            return [f"{pad}{self.target()} = {self.expr()}"]
+        if k < 0.27:
+            self.hist["annassign"] += 1
+            return [f"{pad}{self.name()}: {self.name()} = {self.expr()}"]
+        if k < 0.33:
+            self.hist["augassign"] += 1
+            return [f"{pad}{self.name()} += {self.expr()}"]
+        if k < 0.37:
+            self.hist["typedef"] += 1
+            n = self.name()
+            return [pad + r.choice([f'{n} = TypeVar("{n}")', f'{n} = collections.namedtuple("{n}", ["f"])',
+                                    f"{n} = Mapping[int, {self.name()}]"])]
+        if k < 0.43:
+            self.hist["print"] += 1
+            return [f"{pad}print({self.expr()}, {self.expr()})"]
+        if k < 0.47:
+            self.hist["del"] += 1
+            return [f"{pad}del {self.name()}"]
+        if k < 0.52:
+            self.hist["import"] += 1
+            return [pad + r.choice([f"import os as {self.name()}", f"from os import path as {self.name()}",
+                                    "import os.path", f"from collections import {self.name()}",
+                                    f"import {self.name()}"])]
+        if k < 0.56 and kind == "func":
+            self.hist["global_nonlocal"] += 1
+            return [pad + r.choice(["global ", "nonlocal "]) + self.name()]
+        if deep:
+            return [f"{pad}{self.name()} = {self.expr()}"]
+        if k < 0.62:
+            self.hist["for"] += 1
+            out = [f"{pad}for {self.target()} in {self.expr()}:"] + self.block(ind + 1, depth + 1, kind)
+            if r.random() < 0.2:
+                out += [f"{pad}else:"] + self.block(ind + 1, depth + 1, kind)
+            return out
+        if k < 0.68:
+            self.hist["if_while"] += 1
+            out = [f"{pad}{r.choice(['if', 'while'])} {self.expr()}:"] + self.block(ind + 1, depth + 1, kind)
+            return out
+        if k < 0.72:
+            self.hist["with"] += 1
+            return [f"{pad}with {self.expr()} as {self.target()}:"] + self.block(ind + 1, depth + 1, kind)
+        if k < 0.77:
+            self.hist["try"] += 1
+            return ([f"{pad}try:"] + self.block(ind + 1, depth + 1, kind)
+                    + [f"{pad}except {self.name()} as {self.name()}:"] + self.block(ind + 1, depth + 1, kind))
+        if k < 0.80:
+            self.hist["match"] += 1
+            return [f"{pad}match {self.expr()}:", f"{pad}    case [{self.name()}, *{self.name()}]:",
+                    f"{pad}        pass", f"{pad}    case {{'k': {self.name()}, **{self.name()}}}:",
+                    f"{pad}        print({self.name()})"]
+        if k < 0.92:
+            self.hist["def"] += 1
+            params = []
+            for _ in range(r.randint(0, 3)):
+                p = self.name()
+                if p not in params:
+                    params.append(p)
+            ps = list(params)
+            if ps and r.random() < 0.3:
+                ps[-1] = f"{ps[-1]}={self.expr(2)}"
+            if r.random() < 0.15:
+                ps.append("*" + r.choice(["args", "rest"]))
+            deco = [f"{pad}@{self.name()}"] if r.random() < 0.1 else []
+            asy = "async " if r.random() < 0.08 else ""
+            first = (["self"] if kind == "class" and r.random() < 0.8 else [])
+            head = f"{pad}{asy}def {self.name()}({', '.join(first + [p for p in ps if p.split('=')[0] != 'self'])}):"
+            body = self.block(ind + 1, depth + 1, "func")
+            if r.random() < 0.5:
+                body.append(f"{pad}    return {self.expr()}")
+            return deco + [head] + body
+        self.hist["class"] += 1
+        bases = r.choice(["", "", "", f"({self.name()})", "(object)"])
+        return [f"{pad}class {self.name()}{bases}:"] + self.block(ind + 1, depth + 1, "class")
+
+    def module(self):
+        for _ in range(50):
+            lines = self.block(0, 0, "module")
+            src = "\n".join(lines) + "\n"
+            try:
+                ast.parse(src)
+            except SyntaxError:
+                continue
+            if len(src) < 1500:
+                return src
+        return "x = 1\n"
+
+
+def gen_programs(rnd: random.Random, n: int):
+    out, hist = [], Counter()
+    for i in range(n):
+        g = Gen(rnd, sparse=i % 3 != 0)
+        out.append(g.module())
+        hist.update(g.hist)
+    return out, hist
